@@ -3,6 +3,7 @@ INVARIANT TypeOK
 INVARIANT ContainerSane
 PROPERTY NoResurrection
 PROPERTY ParseTotal
+PROPERTY NearMissRefused
 PROPERTY OnlyDiagonalVerifies
 PROPERTY TamperIsForever
 PROPERTY ReencodeKeepsVerdict
